@@ -9,6 +9,7 @@ Str(s) == s                                   \* code-point strings are written 
 CRLF == <<13, 10>>
 Quick == FALSE
 
+Raw(s) == [f |-> "Raw", a |-> s]
 NoResize(t) == {}
 Lim0 == {0}
 LimInf == {-1}
@@ -124,7 +125,6 @@ CtxLeanResizes(t) == {<<c, r>> \in {<<2, 2>>, <<4, 5>>} : <<c, r>> # <<t.cols, t
 CtxResizes(t) == {<<c, r>> \in {<<1, 1>>, <<2, 2>>, <<3, 3>>, <<4, 5>>} : <<c, r>> # <<t.cols, t.rows>>}
 
 \* ------------------------------------------------------------- C11: dump / restore
-Raw(s) == [f |-> "Raw", a |-> s]
 DumpAlphabet(t) ==
      {F1("Print", 97), F0("Cr"), F0("Lf"), F0("So"), F1("Gzd4", 1), F1("G1d4", 1), F0("Hts"), F1("Tbc", 3), F0("Decsc")}
   \cup {FS(f, <<m>>) : f \in {"Decset", "Decrst"}, m \in {1, 6, 7, 25, 1047}}
@@ -139,6 +139,16 @@ DumpKnownResizes(t) == {<<c, r>> \in {<<2, 3>>} : <<c, r>> # <<t.cols, t.rows>>}
 DumpSizesQ == {<<3, 3>>}
 DumpResizes(t) == {}
 DumpFills == {<<>>, <<65, 65, 65, 65, 13, 10, 66>>}
+
+\* ------------------------------------------------------------- C19: RIS from everywhere
+(* one operation per state component, then RIS (FreshEq is checked on every RIS transition) *)
+RisAlphabet(t) ==
+  {FS("Decset", <<1>>), FS("Decset", <<6>>), FS("Decrst", <<7>>), FS("Decrst", <<25>>), FS("Sm", <<4>>), FS("Sm", <<20>>),
+   F0("So"), F1("Gzd4", 1), F1("G1d4", 1), F0("Hts"), F1("Tbc", 3), F2("Decstbm", 2, t.rows), FS("Sgr", <<<<1, 0>>, <<48, 5>>>>),
+   F0("Decsc"), FS("Decset", <<1047>>), FS("Decset", <<1049>>), F1("Print", 97), F0("Lf"), F2("Cup", t.rows, t.cols),
+   Raw(<<27, 93, 97>>), Raw(<<27, 91, 49, 59>>), Raw(<<27, 80>>), Raw(<<27, 40>>), F0("Ris")}
+RisSizes == {<<3, 2>>, <<9, 1>>}
+RisResizes(t) == {<<c, r>> \in {<<2, 3>>} : <<c, r>> # <<t.cols, t.rows>>}
 
 \* ------------------------------------------------------------- C18: tab stops x widths
 TabsAlphabet(t) ==
